@@ -294,6 +294,25 @@ func t1Slots(p *Prog, o *obls, fn *ssa.Function, spec refcountSpec, found *int) 
 			}
 		}
 		if len(loads) == 0 {
+			// the release may have been delegated to a helper: r.releaseAt(idx); r.slots[idx] = p
+			delegated := false
+			instrsOf(fn, func(in2 ssa.Instruction) {
+				c, ok := in2.(*ssa.Call)
+				if !ok || !instrDominates(c, st) {
+					return
+				}
+				g := c.Call.StaticCallee()
+				if g == nil || !p.InUniverse(g) {
+					return
+				}
+				if pi, ok := releasesSlotParam(p, g, spec); ok && pi < len(c.Call.Args) && p.pureKey(c.Call.Args[pi]) == idxKey {
+					delegated = true
+				}
+			})
+			if delegated {
+				o.ok("T1", key, pos, "previous occupant is released by a helper called with the same index before the slot is overwritten")
+				return
+			}
 			// permitted only when the ring is empty
 			for _, f := range dominatingFactsInstr(st) {
 				f = normFact(f)
@@ -495,4 +514,57 @@ func t2Tag(p *Prog, o *obls, fn *ssa.Function, spec refcountSpec) {
 			}
 		}
 	})
+}
+
+// releasesSlotParam: g loads ring[param], and on the path where that element is non-nil releases it exactly once
+// before every return; returns the index of that parameter.
+func releasesSlotParam(p *Prog, g *ssa.Function, spec refcountSpec) (int, bool) {
+	res, found := -1, false
+	instrsOf(g, func(in ssa.Instruction) {
+		u, ok := in.(*ssa.UnOp)
+		if !ok || u.Op != token.MUL || found {
+			return
+		}
+		ia, ok := u.X.(*ssa.IndexAddr)
+		if !ok {
+			return
+		}
+		if uu, ok := ia.X.(*ssa.UnOp); !ok || uu.Op != token.MUL {
+			return
+		} else if fa, ok := uu.X.(*ssa.FieldAddr); !ok || fieldKeyAddr(fa) != spec.slots {
+			return
+		}
+		par, ok := p.origin(ia.Index).(*ssa.Parameter)
+		if !ok {
+			return
+		}
+		isRelease := func(i2 ssa.Instruction) bool {
+			c, ok := i2.(*ssa.Call)
+			return ok && calleeName(&c.Call) == spec.release && p.origin(c.Call.Args[0]) == ssa.Value(u)
+		}
+		starts := nonNilSuccessors(p, g, u)
+		if len(starts) == 0 {
+			return
+		}
+		good := true
+		for _, s := range starts {
+			before := seededCounts(g, s, isRelease)
+			for _, b := range g.Blocks {
+				last := b.Instrs[len(b.Instrs)-1]
+				if _, isRet := last.(*ssa.Return); isRet && b != g.Recover {
+					if m := before[last]; m != 0 && m != 2 {
+						good = false
+					}
+				}
+			}
+		}
+		if good {
+			for i, pp := range g.Params {
+				if pp == par {
+					res, found = i, true
+				}
+			}
+		}
+	})
+	return res, found
 }
